@@ -56,6 +56,17 @@ class Ctx:
         self._grammar = None
         self._docs = {}
         self._seen = set()
+        self.declined = []  # (rule function, reason): rules that could not recognise the shape they analyse
+
+    def run(self, rule_fn, *args, **kwargs):
+        """Run one rule.  A rule that declines (AnalysisError: the shape it analyses is not recognised, or an instance
+        floor is not met) is recorded and the remaining rules of the property still run: what they find is reported, and
+        the check as a whole exits 2 instead of 0 when nothing was found."""
+        try:
+            return rule_fn(self, *args, **kwargs)
+        except AnalysisError as e:
+            self.declined.append((getattr(rule_fn, "__name__", str(rule_fn)), str(e)))
+            return None
 
     # lazy heavy parts -------------------------------------------------
     @property
@@ -130,6 +141,8 @@ def run_property(prop, checker, tier="quick", overlay=None, repo=None, write=Tru
         ctx = Ctx(prop, tier, repo=repo, overlay=overlay, model=model)
         checker(ctx)
         err = None
+        if ctx.declined:
+            err = "\n".join(f"ANALYSIS-ERROR property={prop} {why} [{name}]" for name, why in ctx.declined)
     except AnalysisError as e:
         err = f"ANALYSIS-ERROR property={prop} {e}"
     except Exception as e:  # never a traceback exit
